@@ -30,7 +30,7 @@ class Ref:
         self.path = tuple(path)
 
     def __repr__(self):
-        return 'Ref(%s,%s,%s)' % (self.kind, self.key if self.kind == 'heap' else '_%d' % self.key[1], self.path)
+        return 'Ref(%s,%s)' % (self.kind, self.path)
 
 
 class Enum:
@@ -128,6 +128,15 @@ class Iter:
 
     def __repr__(self):
         return 'Iter%r@%d' % (self.items, self.pos)
+
+
+class Repeat:
+    """iter::repeat(v) / repeat_n: unbounded until `take`n."""
+    __slots__ = ('v', 'n')
+
+    def __init__(self, v, n=None):
+        self.v = v
+        self.n = n
 
 
 class Closure:
@@ -253,6 +262,8 @@ class VM:
             base = fr[l]
         elif ref.kind == 'elem':
             base = ref.key[0].items[ref.key[1]]
+        elif ref.kind == 'obj':
+            base = ref.key
         else:
             base = self.heap[ref.key]
         for p in ref.path:
@@ -262,6 +273,14 @@ class VM:
     def store(self, ref, val):
         if isinstance(ref, _Val):
             raise Unsupported('write through a by-value reference')
+        if ref.kind == 'obj':
+            if not ref.path:
+                raise Unsupported('overwrite of a by-value object')
+            base = ref.key
+            for p in ref.path[:-1]:
+                base = self.field(base, p)
+            self._set(base, ref.path[-1], val)
+            return
         if ref.kind == 'elem':
             if ref.path:
                 base = ref.key[0].items[ref.key[1]]
@@ -297,6 +316,11 @@ class VM:
             base.items[int(last)] = val
         elif isinstance(base, Closure):
             base.caps[int(last)] = val
+        elif isinstance(base, Slice):
+            i = int(last)
+            if i >= base.hi - base.lo:
+                raise Panic('index %d out of bounds (len %d)' % (i, base.hi - base.lo))
+            base.seq.items[base.lo + i] = val
         else:
             raise Unsupported('write into %r' % (base,))
 
@@ -316,6 +340,11 @@ class VM:
             return v.items[i]
         if isinstance(v, Closure):
             return v.caps[int(p)]
+        if isinstance(v, Slice):
+            i = int(p)
+            if i >= v.hi - v.lo:
+                raise Panic('index %d out of bounds (len %d)' % (i, v.hi - v.lo))
+            return v.seq.items[v.lo + i]
         raise Unsupported('field %r of %r' % (p, v))
 
     def deref(self, v):
@@ -337,6 +366,8 @@ class VM:
                     cur = Ref(v.kind, v.key, v.path)
                 elif isinstance(v, _Val):
                     cur = v
+                elif isinstance(v, (Slice, Seq, Struct, Enum)):
+                    cur = Ref('obj', v)          # containers have identity: writes through them reach the object
                 else:
                     cur = _Val(v)
             elif isinstance(p, dict) and 'f' in p:
@@ -388,6 +419,20 @@ class VM:
 
     # -- operands / rvalues ----------------------------------------------------------------------
     def const(self, o):
+        try:
+            return self._const(o)
+        except Unsupported:
+            # a promoted constant the fact extractor could not print as a literal: run its (argument-less) body
+            pp = o.get('promoted')
+            body = self.facts.mir_body(pp) if pp else None
+            if body is None:
+                raise
+            cache = self.__dict__.setdefault('_promoted_cache', {})
+            if pp not in cache:
+                cache[pp] = self.run(body, [])
+            return cache[pp]
+
+    def _const(self, o):
         ty = o.get('ty', '')
         if 'fn' in o:
             return Fn(o['fn'])
@@ -405,7 +450,7 @@ class VM:
         core_ty = ty.lstrip('&').strip()
         if s.startswith('b"'):
             return Seq([ord(c) for c in rust_str(s[1:])])
-        if core_ty in ('str', "'static str") or s.startswith('"'):
+        if s.startswith('"') or (core_ty in ('str', "'static str") and s.startswith('"')):
             return rust_str(s)
         if core_ty in ('f64', 'f32'):
             t = s.replace('_f64', '').replace('f64', '').replace('_f32', '').replace('f32', '')
@@ -419,6 +464,39 @@ class VM:
             return Enum(core_ty, tail)
         if s.endswith('::None') or s == 'None' or s.endswith('Option::<T>::None'):
             return NONE
+        # a named constant / static of the crate: evaluate its initialiser
+        name = s.lstrip('&').strip()
+        body = self.facts.mir_body(name)
+        if body is not None and body.get('arg_count', 0) == 0:
+            cache = self.__dict__.setdefault('_consts_cache', {})
+            if name not in cache:
+                cache[name] = self.run(body, [])
+            return cache[name]
+        if self.facts.body(name) is not None:
+            # no MIR for plain consts in the facts: evaluate the (typed) HIR of the initialiser
+            from .peval import Evaluator, Unanalysable
+            try:
+                v = Evaluator(self.facts).const_value(name)
+            except Unanalysable as e:
+                raise Unsupported('constant %s: %s' % (name, e.what))
+
+            def conv(x):
+                if isinstance(x, (bytes, bytearray)):
+                    return Seq(list(x))
+                if isinstance(x, list):
+                    return Seq([conv(y) for y in x])
+                if isinstance(x, tuple) and len(x) == 2 and x[0] == 'fn' and isinstance(x[1], str):
+                    return Fn(x[1])
+                if isinstance(x, tuple):
+                    return tuple(conv(y) for y in x)
+                if isinstance(x, (str, int, float, bool)):
+                    return x
+                if hasattr(x, 'bits') and hasattr(x, 'ty'):
+                    return Struct(x.ty.split('::')[-1], {'bits': x.bits})
+                if isinstance(x, dict):
+                    return Struct('?', {k: conv(v_) for k, v_ in x.items()})
+                raise Unsupported('constant %s has the value %r' % (name, x))
+            return conv(v)
         raise Unsupported('constant %s : %s' % (s, ty))
 
     def operand(self, fr, o):
@@ -435,6 +513,9 @@ class VM:
             return a == b
         if op == 'Ne':
             return a != b
+        if op in ('Lt', 'Le', 'Gt', 'Ge') and isinstance(a, (Seq, Slice)) and isinstance(b, (Seq, Slice)):
+            a, b = list(a.items), list(b.items)
+            return {'Lt': a < b, 'Le': a <= b, 'Gt': a > b, 'Ge': a >= b}[op]
         num = (int, float, str, bool)
         if op in ('Lt', 'Le', 'Gt', 'Ge') and isinstance(a, num) and isinstance(b, num):
             return {'Lt': a < b, 'Le': a <= b, 'Gt': a > b, 'Ge': a >= b}[op]
@@ -524,7 +605,7 @@ class VM:
                 v = self.deref(a)
                 if isinstance(v, str):
                     return len(v.encode('utf-8'))
-                if isinstance(v, (Seq,)):
+                if isinstance(v, (Seq, Slice)):
                     return len(v.items)
                 if isinstance(v, (list, bytes)):
                     return len(v)
@@ -594,6 +675,9 @@ class VM:
         if name in ('Ord::min', 'Ord::max', 'cmp::min', 'cmp::max'):
             a, b = d(args[0]), d(args[1])
             return min(a, b) if last == 'min' else max(a, b)
+        if isinstance(a0, Struct) and a0.name in ('Range', 'RangeInclusive') and name.split('::')[0] in ('Iterator', 'DoubleEndedIterator') and last != 'next':
+            lo, hi = a0.fields['start'], a0.fields['end'] + (1 if a0.name == 'RangeInclusive' else 0)
+            return self.builtin(name, callee, [Iter(list(range(lo, max(lo, hi))))] + list(args[1:]), t)
         if isinstance(a0, Struct) and name.split('::')[0] in ('Iterator', 'IntoIterator') and last != 'next' and \
                 self.find_impl(a0.name, 'core::iter::traits::iterator::Iterator', 'next'):
             if last == 'into_iter':
@@ -790,6 +874,35 @@ class VM:
                 return ()
             if last == 'with_capacity':
                 return ''
+            if last in ('insert_str', 'insert'):
+                i = d(args[1])
+                b = s.encode('utf-8')
+                self.store(args[0], (b[:i] + d(args[2]).encode('utf-8') + b[i:]).decode('utf-8'))
+                return ()
+            if last == 'replace_range':
+                r = d(args[1])
+                b = s.encode('utf-8')
+                lo, hi = r.fields.get('start', 0), r.fields.get('end', len(b))
+                if r.name in ('RangeInclusive', 'RangeToInclusive'):
+                    hi += 1
+                if lo > hi or hi > len(b):
+                    raise Panic('replace_range out of bounds')
+                self.store(args[0], (b[:lo] + d(args[2]).encode('utf-8') + b[hi:]).decode('utf-8'))
+                return ()
+            if last == 'truncate':
+                self.store(args[0], s.encode('utf-8')[:d(args[1])].decode('utf-8'))
+                return ()
+            if last == 'pop':
+                if not s:
+                    return NONE
+                self.store(args[0], s[:-1])
+                return Some(s[-1])
+            if last == 'capacity':
+                return len(s)
+            if last in ('reserve', 'shrink_to_fit'):
+                return ()
+            if last == 'char_indices':
+                pass
             if last == 'parse':
                 try:
                     return Enum('core::result::Result', 'Ok', [float(s)])
@@ -801,10 +914,20 @@ class VM:
                 return Enum('core::result::Result', 'Ok', [bytes(a0.items).decode('utf-8')])
             except (UnicodeDecodeError, ValueError):
                 return Enum('core::result::Result', 'Err', ['Utf8Error'])
+        if name in ('AddAssign::add_assign', 'Extend::extend', 'String::extend') and isinstance(a0, str):
+            o = d(args[1])
+            if isinstance(o, Iter):
+                o = ''.join(d(x) for x in o.rest())
+            if isinstance(o, (Seq, Slice)):
+                o = ''.join(d(x) for x in o.items)
+            self.store(args[0], a0 + o)
+            return ()
+        if name == 'Add::add' and isinstance(a0, str) and isinstance(d(args[1]), str):
+            return a0 + d(args[1])
         if name in ('String::new', 'String::with_capacity'):
             return ''
         # --- iterators
-        if isinstance(a0, Iter) and name.split('::')[0] in ('Iterator', 'DoubleEndedIterator', 'Peekable', 'Rev', 'Enumerate', 'Chars', 'CharIndices', 'Map', 'Filter', 'IntoIterator',
+        if isinstance(a0, Iter) and name.split('::')[0] in ('Iterator', 'DoubleEndedIterator', 'Peekable', 'Rev', 'Enumerate', 'Chars', 'CharIndices', 'Map', 'Filter', 'IntoIterator', 'Skip', 'Take', 'Zip', 'Chain', 'Cloned', 'Copied',
                                                                'ExactSizeIterator', 'Drain', 'IntoIter', 'Iter', 'SplitWhitespace', 'Fuse'):
             it = a0
             if last == 'next':
@@ -862,10 +985,121 @@ class VM:
             if last == 'size_hint':
                 n = len(it.rest())
                 return (n, Some(n))
+            if last == 'len':
+                return len(it.rest())
+            if last == 'nth':
+                k = d(args[1])
+                rest = it.rest()
+                if k < len(rest):
+                    it.pos += k + 1
+                    return Some(rest[k])
+                it.pos = len(it.items)
+                return NONE
+            if last in ('next_back', 'nth_back'):
+                k = d(args[1]) if last == 'nth_back' else 0
+                rest = it.rest()
+                if k < len(rest):
+                    v = rest[len(rest) - 1 - k]
+                    del it.items[it.pos + len(rest) - 1 - k:]
+                    return Some(v)
+                del it.items[it.pos:]
+                return NONE
+            if last == 'next_if':
+                if it.pos < len(it.items) and self.call_value(args[1], [it.items[it.pos]]):
+                    it.pos += 1
+                    return Some(it.items[it.pos - 1])
+                return NONE
+            if last == 'next_if_eq':
+                if it.pos < len(it.items) and it.items[it.pos] == d(args[1]):
+                    it.pos += 1
+                    return Some(it.items[it.pos - 1])
+                return NONE
+            if last == 'skip':
+                return Iter(it.rest()[d(args[1]):])
+            if last == 'take':
+                return Iter(it.rest()[:d(args[1])])
+            if last == 'step_by':
+                return Iter(it.rest()[::d(args[1])])
+            if last == 'chain':
+                o = d(args[1])
+                return Iter(it.rest() + (o.rest() if isinstance(o, Iter) else list(o.items)))
+            if last == 'zip':
+                o = d(args[1])
+                return Iter(list(zip(it.rest(), o.rest() if isinstance(o, Iter) else list(o.items))))
+            if last in ('cloned', 'copied'):
+                return Iter([d(x) for x in it.rest()])
+            if last in ('sum', 'product'):
+                acc = 0 if last == 'sum' else 1
+                for x in it.rest():
+                    acc = acc + d(x) if last == 'sum' else acc * d(x)
+                it.pos = len(it.items)
+                return acc
+            if last in ('min', 'max'):
+                r = [d(x) for x in it.rest()]
+                it.pos = len(it.items)
+                return Some(min(r) if last == 'min' else max(r)) if r else NONE
+            if last == 'fold':
+                acc = args[1]
+                for x in it.rest():
+                    acc = self.call_value(args[2], [acc, x])
+                it.pos = len(it.items)
+                return acc
+            if last == 'try_fold':
+                acc = args[1]
+                while it.pos < len(it.items):
+                    x = it.items[it.pos]
+                    it.pos += 1
+                    r = self.call_value(args[2], [acc, x])
+                    if isinstance(r, Enum) and r.variant in ('Err', 'None', 'Break'):
+                        return r
+                    acc = r.payload[0]
+                # the accumulator is wrapped in the closure's own return type
+                kind = getattr(self, '_try_kind', None)
+                return Enum('core::result::Result', 'Ok', [acc]) if kind != 'Option' else Some(acc)
+            if last == 'for_each':
+                for x in it.rest():
+                    self.call_value(args[1], [x])
+                it.pos = len(it.items)
+                return ()
+            if last == 'rposition':
+                pr = self._pred(args[1])
+                rest = it.rest()
+                for i in range(len(rest) - 1, -1, -1):
+                    if pr(rest[i]):
+                        return Some(i)
+                return NONE
+            if last == 'find_map':
+                for i, x in enumerate(it.rest()):
+                    r = self.call_value(args[1], [x])
+                    if not is_none(r):
+                        it.pos += i + 1
+                        return r
+                it.pos = len(it.items)
+                return NONE
+            if last == 'flat_map' or last == 'flatten':
+                out = []
+                for x in it.rest():
+                    y = self.call_value(args[1], [x]) if last == 'flat_map' else x
+                    y = d(y)
+                    out.extend(y.rest() if isinstance(y, Iter) else (list(y.items) if isinstance(y, (Seq, Slice)) else ([y.payload[0]] if isinstance(y, Enum) and y.payload else [])))
+                return Iter(out)
+            if last == 'map_while':
+                out = []
+                for x in it.rest():
+                    r = self.call_value(args[1], [x])
+                    if is_none(r):
+                        break
+                    out.append(r.payload[0])
+                return Iter(out)
+            if last == 'inspect':
+                for x in it.rest():
+                    self.call_value(args[1], [x])
+                return it
             raise Unsupported('iterator method ' + name)
         if isinstance(a0, (Slice, Seq)) and name.split('::')[0] in ('slice', '[T]', 'Vec') and last in (
                 'len', 'is_empty', 'iter', 'copy_from_slice', 'swap_with_slice', 'split_at_mut', 'split_at', 'to_vec', 'first', 'last', 'fill', 'as_slice',
-                'as_mut_slice', 'iter_mut', 'contains', 'starts_with', 'ends_with', 'clone_from_slice', 'reverse', 'get') and not (isinstance(a0, Seq) and last in ('len', 'is_empty', 'iter', 'first', 'last', 'contains')):
+                'as_mut_slice', 'iter_mut', 'contains', 'starts_with', 'ends_with', 'clone_from_slice', 'reverse', 'get', 'get_mut', 'first_mut',
+                'last_mut', 'split_first', 'split_last', 'concat', 'swap', 'rotate_left', 'rotate_right', 'copy_within') and not (isinstance(a0, Seq) and last in ('len', 'is_empty', 'iter', 'first', 'last', 'contains')):
             items = list(a0.items)
             base, off = (a0, 0) if isinstance(a0, Seq) else (a0.seq, a0.lo)
             if last == 'len':
@@ -911,10 +1145,54 @@ class VM:
             if last == 'reverse':
                 base.items[off:off + len(items)] = items[::-1]
                 return ()
-            if last == 'get':
+            if last in ('get', 'get_mut'):
                 i = d(args[1])
-                if isinstance(i, int):
-                    return Some(items[i]) if i < len(items) else NONE
+                if isinstance(i, int) and not isinstance(i, bool):
+                    if i >= len(items):
+                        return NONE
+                    return Some(Ref('elem', (base, off + i)) if last == 'get_mut' else items[i])
+                try:
+                    return Some(self.builtin('Index::index', 'Index::index', [a0, args[1]], t))
+                except Panic:
+                    return NONE
+            if last in ('first_mut', 'last_mut'):
+                if not items:
+                    return NONE
+                return Some(Ref('elem', (base, off + (0 if last == 'first_mut' else len(items) - 1))))
+            if last in ('split_first', 'split_last'):
+                if not items:
+                    return NONE
+                if last == 'split_first':
+                    return Some((items[0], Slice(base, off + 1, off + len(items))))
+                return Some((items[-1], Slice(base, off, off + len(items) - 1)))
+            if last == 'concat':
+                if all(isinstance(d(x), str) or isinstance(d(x), Struct) for x in items):
+                    return ''.join(self.as_text(x) for x in items)
+                out = []
+                for x in items:
+                    out.extend(list(d(x).items))
+                return Seq(out)
+            if last == 'swap':
+                i, j = d(args[1]), d(args[2])
+                if max(i, j) >= len(items):
+                    raise Panic('swap index out of bounds')
+                base.items[off + i], base.items[off + j] = base.items[off + j], base.items[off + i]
+                return ()
+            if last == 'rotate_left' or last == 'rotate_right':
+                k = d(args[1])
+                if k > len(items):
+                    raise Panic('rotate out of bounds')
+                k = k if last == 'rotate_left' else (len(items) - k)
+                base.items[off:off + len(items)] = items[k:] + items[:k]
+                return ()
+            if last in ('copy_within',):
+                r = d(args[1])
+                lo, hi = r.fields.get('start', 0), r.fields.get('end', len(items))
+                dst = d(args[2])
+                if lo > hi or hi > len(items) or dst + (hi - lo) > len(items):
+                    raise Panic('copy_within out of bounds')
+                base.items[off + dst:off + dst + hi - lo] = items[lo:hi]
+                return ()
         # --- sequences
         if isinstance(a0, Seq) and name.split('::')[0] in ('Vec', 'VecDeque', 'slice', '[T]', 'Extend', 'Index', 'IndexMut', 'array'):
             q = a0
@@ -984,6 +1262,42 @@ class VM:
             if last == 'truncate':
                 del q.items[d(args[1]):]
                 return ()
+            if last == 'retain':
+                q.items[:] = [x for x in q.items if self.call_value(args[1], [x])]
+                return ()
+            if last == 'dedup':
+                out = []
+                for x in q.items:
+                    if not out or out[-1] != x:
+                        out.append(x)
+                q.items[:] = out
+                return ()
+            if last == 'append':
+                o = d(args[1])
+                q.items.extend(o.items)
+                o.items.clear()
+                return ()
+            if last == 'split_off':
+                k = d(args[1])
+                if k > len(q.items):
+                    raise Panic('split_off out of bounds')
+                tail = q.items[k:]
+                del q.items[k:]
+                return Seq(tail)
+            if last == 'swap_remove':
+                k = d(args[1])
+                if k >= len(q.items):
+                    raise Panic('swap_remove out of bounds')
+                v = q.items[k]
+                q.items[k] = q.items[-1]
+                q.items.pop()
+                return v
+            if last in ('reserve', 'shrink_to_fit', 'reserve_exact'):
+                return ()
+            if last == 'capacity':
+                return len(q.items)
+            if last in ('into_iter', 'into_boxed_slice', 'into_vec'):
+                return Iter(q.items) if last == 'into_iter' else q
             if last == 'remove':
                 i = d(args[1])
                 if i >= len(q.items):
@@ -1033,6 +1347,45 @@ class VM:
                 return a0 if a0.variant == 'Some' and self.call_value(args[1], [a0.payload[0]]) else NONE
             if last == 'iter':
                 return Iter(a0.payload[:1] if a0.variant == 'Some' else [])
+            some = a0.variant == 'Some'
+            if last == 'or_else':
+                return a0 if some else self.call_value(args[1], [])
+            if last == 'unwrap_or_else':
+                return a0.payload[0] if some else self.call_value(args[1], [])
+            if last == 'map_or_else':
+                return self.call_value(args[2], [a0.payload[0]]) if some else self.call_value(args[1], [])
+            if last == 'ok_or':
+                return Enum('core::result::Result', 'Ok', [a0.payload[0]]) if some else Enum('core::result::Result', 'Err', [args[1]])
+            if last == 'ok_or_else':
+                return Enum('core::result::Result', 'Ok', [a0.payload[0]]) if some else Enum('core::result::Result', 'Err', [self.call_value(args[1], [])])
+            if last == 'and':
+                return d(args[1]) if some else NONE
+            if last == 'xor':
+                o = d(args[1])
+                return a0 if some and is_none(o) else (o if not some and not is_none(o) else NONE)
+            if last == 'zip':
+                o = d(args[1])
+                return Some((a0.payload[0], o.payload[0])) if some and not is_none(o) else NONE
+            if last in ('copied', 'cloned', 'flatten'):
+                if last == 'flatten':
+                    return d(a0.payload[0]) if some else NONE
+                return Some(d(a0.payload[0])) if some else NONE
+            if last == 'is_none_or':
+                return (not some) or bool(self.call_value(args[1], [a0.payload[0]]))
+            if last == 'inspect':
+                if some:
+                    self.call_value(args[1], [a0.payload[0]])
+                return a0
+            if last == 'get_or_insert_with':
+                if not some:
+                    self.store(args[0], Some(self.call_value(args[1], [])))
+                r0 = args[0]
+                return Ref(r0.kind, r0.key, r0.path + (0,)) if isinstance(r0, Ref) else self.load(r0).payload[0]
+            if last == 'take_if':
+                if some and self.call_value(args[1], [a0.payload[0]]):
+                    self.store(args[0], NONE)
+                    return a0
+                return NONE
             raise Unsupported('Option method ' + name)
         if isinstance(a0, Enum) and a0.variant in ('Ok', 'Err') and name.startswith('Result::'):
             if last == 'is_ok':
@@ -1053,6 +1406,37 @@ class VM:
                 return a0.variant == 'Err' and bool(self.call_value(args[1], [a0.payload[0]]))
             if last == 'map':
                 return Enum(a0.adt, 'Ok', [self.call_value(args[1], [a0.payload[0]])]) if a0.variant == 'Ok' else a0
+            okv = a0.variant == 'Ok'
+            if last == 'map_err':
+                return a0 if okv else Enum(a0.adt, 'Err', [self.call_value(args[1], [a0.payload[0]])])
+            if last == 'and_then':
+                return self.call_value(args[1], [a0.payload[0]]) if okv else a0
+            if last == 'or_else':
+                return a0 if okv else self.call_value(args[1], [a0.payload[0]])
+            if last == 'and':
+                return d(args[1]) if okv else a0
+            if last == 'or':
+                return a0 if okv else d(args[1])
+            if last == 'unwrap_or':
+                return a0.payload[0] if okv else args[1]
+            if last == 'unwrap_or_else':
+                return a0.payload[0] if okv else self.call_value(args[1], [a0.payload[0]])
+            if last == 'map_or':
+                return self.call_value(args[2], [a0.payload[0]]) if okv else args[1]
+            if last == 'map_or_else':
+                return self.call_value(args[2], [a0.payload[0]]) if okv else self.call_value(args[1], [a0.payload[0]])
+            if last in ('unwrap_err', 'expect_err'):
+                if okv:
+                    raise Panic('unwrap_err on Ok')
+                return a0.payload[0]
+            if last == 'iter':
+                return Iter(a0.payload[:1] if okv else [])
+            if last in ('copied', 'cloned'):
+                return a0
+            if last == 'inspect':
+                if okv:
+                    self.call_value(args[1], [a0.payload[0]])
+                return a0
             raise Unsupported('Result method ' + name)
         if name == 'Try::branch' and isinstance(a0, Enum):
             cf = 'core::ops::control_flow::ControlFlow'
@@ -1061,6 +1445,77 @@ class VM:
             return Enum(cf, 'Break', [a0 if a0.variant == 'None' else Enum(a0.adt, 'Err', list(a0.payload))])
         if name == 'FromResidual::from_residual':
             return a0
+        # --- format!: the template comes from the pre-lowering AST (facts.format_args, keyed by the macro call-site span)
+        if name in ('Argument::new_display', 'Argument::new_debug', 'Argument::new_lower_hex'):
+            if name != 'Argument::new_display':
+                raise Unsupported('format argument with %s' % name)
+            return ('$fmtarg', d(args[0]))
+        if name in ('Arguments::new', 'Arguments::new_v1', 'Arguments::new_const', 'Arguments::from_str', 'Arguments::new_v1_formatted'):
+            vals = []
+            for a in args:
+                v = d(a)
+                if isinstance(v, (Seq, Slice)) and all(isinstance(d(x), tuple) and d(x) and d(x)[0] == '$fmtarg' for x in v.items):
+                    vals = [d(x)[1] for x in v.items]
+            return ('$fmtargs', vals, t.get('sp') if t else None)
+        if name in ('fmt::format', 'format::format_inner') and isinstance(a0, tuple) and a0 and a0[0] == '$fmtargs':
+            idx = self.__dict__.setdefault('_fmt_index', None)
+            if idx is None:
+                idx = self._fmt_index = {fa['macro_sp']: fa for fa in self.facts.format_args}
+            fa = idx.get(a0[2]) or idx.get(t.get('sp') if t else None)
+            if fa is None:
+                raise Unsupported('format! template not found for %s' % (a0[2],))
+            out = ''
+            for pc in fa['pieces']:
+                if 'lit' in pc:
+                    out += pc['lit']
+                    continue
+                if not (pc.get('trait') == 'Display' and pc.get('plain')) or pc['arg'] >= len(a0[1]):
+                    raise Unsupported('format placeholder %r' % (pc,))
+                v = a0[1][pc['arg']]
+                if isinstance(v, bool) or not isinstance(v, (str, int)):
+                    raise Unsupported('format argument %r' % (v,))
+                out += str(v)
+            return out
+        if name in ('repeat::repeat', 'sources::repeat', 'iter::repeat'):
+            return Repeat(args[0])
+        if name in ('repeat_n::repeat_n', 'iter::repeat_n', 'sources::repeat_n'):
+            return Iter([args[0]] * d(args[1]))
+        if isinstance(a0, Repeat):
+            if last == 'take':
+                k = d(args[1])
+                if k > 1 << 20:
+                    raise Unsupported('repeat().take(%d)' % k)
+                return Iter([a0.v] * k)
+            if last == 'next':
+                return Some(a0.v)
+            raise Unsupported('unbounded iterator method ' + name)
+        if name in ('iter::once', 'once::once', 'sources::once'):
+            return Iter([args[0]])
+        if name in ('iter::empty', 'empty::empty', 'sources::empty'):
+            return Iter([])
+        if name in ('RangeInclusive::new',):
+            return Struct('RangeInclusive', {'start': d(args[0]), 'end': d(args[1])})
+        if isinstance(a0, Struct) and a0.name in ('Range', 'RangeInclusive', 'RangeFrom', 'RangeTo', 'RangeToInclusive') and last in ('contains', 'start', 'end', 'is_empty', 'len', 'rev', 'next'):
+            lo, hi = a0.fields.get('start'), a0.fields.get('end')
+            if last == 'contains':
+                x = d(args[1])
+                ok_lo = lo is None or x >= lo
+                ok_hi = hi is None or (x <= hi if a0.name in ('RangeInclusive', 'RangeToInclusive') else x < hi)
+                return ok_lo and ok_hi
+            if last in ('start', 'end'):
+                return a0.fields[last]
+            n_ = (hi - lo + (1 if a0.name == 'RangeInclusive' else 0)) if lo is not None and hi is not None else None
+            if last == 'is_empty':
+                return n_ is not None and n_ <= 0
+            if last == 'len':
+                return max(0, n_)
+            if last == 'rev':
+                return Iter(list(range(lo, lo + max(0, n_)))[::-1])
+            if last == 'next':
+                if n_ is not None and n_ > 0:
+                    a0.fields['start'] = lo + 1
+                    return Some(lo)
+                return NONE
         if name in ('mem::take', 'mem::replace', 'mem::swap'):
             cur = self.load(args[0])
             if name == 'mem::replace':
@@ -1084,6 +1539,10 @@ class VM:
             else:
                 raise Unsupported('mem::take of %r' % (cur,))
             return cur
+        if isinstance(a0, bool) and name in ('bool::then', 'bool::then_some'):
+            if not a0:
+                return NONE
+            return Some(self.call_value(args[1], [])) if last == 'then' else Some(args[1])
         if isinstance(a0, float) and last in ('is_nan', 'recip', 'abs'):
             return {'is_nan': a0 != a0, 'recip': (1.0 / a0) if a0 else float('inf'), 'abs': abs(a0)}[last]
         if isinstance(a0, int) and not isinstance(a0, bool) and last in ('saturating_sub', 'wrapping_sub', 'checked_sub', 'saturating_add', 'checked_add', 'min', 'max', 'pow'):
@@ -1155,6 +1614,8 @@ class VM:
             r = self.env.call(self, name, callee, resolved, args, t)
             if r is not NotImplemented:
                 return r
+        if resolved and resolved != callee and self.is_local(resolved):
+            return self.run(self.facts.mir_body(resolved), args)      # the crate's own impl of a std trait (Deref, PartialEq, ...)
         r = self.builtin(name, callee or '', args, t)
         if r is not NotImplemented:
             return r
@@ -1170,10 +1631,14 @@ class VM:
             v = self.deref(args[0])
             if isinstance(v, Iter) and v.rest():
                 v = self.deref(v.rest()[0])
-            if isinstance(v, Struct):
-                imp = self.find_impl(v.name, t['trait'], (callee or '').split('::')[-1])
+            if isinstance(v, (Struct, Enum)):
+                nm = v.name if isinstance(v, Struct) else (v.adt or '').split('::')[-1]
+                imp = self.find_impl(nm, t['trait'], (callee or '').split('::')[-1]) if nm else None
                 if imp:
                     return self.run(self.facts.mir_body(imp), args)
+            if self.is_local(callee):
+                # a provided (default) trait method that the receiver's type does not override
+                return self.run(self.facts.mir_body(callee), args)
         raise Unsupported('call of %s (%s) on %r' % (name, target, [self._show(a) for a in args][:3]))
 
     def _show(self, a):
